@@ -20,7 +20,7 @@ from mc.snapshot import digest
 
 PID = 'C17'
 LEVEL = 'model_checking'
-RULE = ('one explicit-state search per estimator (17), events as listed in the module docstring, depth 3 (quick) / 4 '
+RULE = ('one explicit-state search per estimator (17), events as listed in the module docstring, depth 3 (quick) / 4, 5 for the cheap learners '
         '(thorough); invariants: (i) fitted state == state of a FRESH instance fitted with the parameters in force at the '
         'last fit on the data of the last fit (components_, threshold_, n_features_in_, probe distances: bit-identical), '
         '(ii) no argument and no hyper-parameter object is modified by any call, (iii) query calls leave the state digest '
@@ -30,7 +30,9 @@ ASSUMPTIONS = ['States are merged only when the digest of the complete concrete 
                'harness bookkeeping of the last fit) is equal, so no abstraction can hide a difference.',
                'LFDA is searched on its deterministic dense eigen-solver path (n_components=None); its ARPACK path '
                '(random start vector) is compared through M with tolerance 1e-8 in a separate case.']
-BOUNDS = {'quick': dict(depth=3), 'thorough': dict(depth=4)}
+BOUNDS = {'quick': dict(depth=3), 'thorough': dict(depth=4, depth_light=5)}
+# estimators whose fits are cheap get one more level in the thorough tier
+LIGHT = ['Covariance', 'LFDA', 'RCA', 'RCA_Supervised', 'NCA', 'SDML', 'SDML_Supervised', 'MLKR']
 DA, DB = 'S3u', 'S2'
 
 
@@ -352,7 +354,7 @@ def invariant_factory(name):
 
 
 def cases(tier, seed):
-    out = [(n, ('bfs', n, BOUNDS[tier]['depth'])) for n in zoo.ALL]
+    out = [(n, ('bfs', n, BOUNDS[tier].get('depth_light', BOUNDS[tier]['depth']) if n in LIGHT else BOUNDS[tier]['depth'])) for n in zoo.ALL]
     out.append(('LFDA/arpack', ('lfda_arpack', seed)))
     for name in LARGE:
         out.append(('large/' + name, ('large', name, seed)))
